@@ -1,4 +1,5 @@
 import MosdnsVerif.Refine.C04
+import MosdnsVerif.Gen.Facts
 
 /-!
 # C04 — a cached answer is only served to the same question
@@ -121,5 +122,10 @@ example : Gen.getMsgKey qA ≠ Gen.getMsgKey qCAA := by decide
 example : Gen.getMsgKey qA ≠ Gen.getMsgKey qCH := by decide
 example : lookup ([Op.store qA (7 : Nat)].foldl step []) qA = some ⟨qA, 7⟩ := by decide
 example : lookup ([Op.store qA (7 : Nat)].foldl step []) qCAA = none := by decide
+
+/-! The dump / load_dump path re-stores entries: it keeps the invariant of `inv_run`
+(every stored entry sits under the key of the query it was produced for) exactly
+when an entry is written with, and loaded under, its own key - read from the source. -/
+theorem facts_guard : Gen.Facts.c04DumpWritesKey = some true ∧ Gen.Facts.c04DumpLoadKeepsKey = some true := by decide
 
 end Props.C04
